@@ -138,6 +138,23 @@ def eval_case(ctx, case):
                         if rec["path"] == "blob.bin":
                             for h in rec["hashes"]:
                                 chk("create", h["format"], h["digest"], 1)
+        # the digest depends on the bytes only: the same path rewritten in place with other bytes of the same length, same inode,
+        # size and (restored) mtime must hash to the digest of the NEW bytes - in the same process
+        if n > 0 and case.get("cli"):
+            st = os.stat(path)
+            data2 = bytes([data[0] ^ 0x5A]) + data[1:-1] + (bytes([data[-1] ^ 0xA5]) if n > 1 else b"")
+            with sub.REAL["open"](path, "r+b") as f:
+                f.write(data2)
+            os.utime(path, ns=(st.st_atime_ns, st.st_mtime_ns))
+            st2 = os.stat(path)
+            if (st2.st_ino, st2.st_size, st2.st_mtime_ns) == (st.st_ino, st.st_size, st.st_mtime_ns):
+                want = {f: ref.digest(f, data2) for f in ref.FORMATS_LIB}
+                for fmt in ref.FORMATS_LIB:
+                    chk("hash_file-after-rewrite", fmt, H.hash_file(path, fmt), extra=" (rewritten in place, same size and mtime)")
+                for f, d in H.multiple_format_hash_file(path, list(ref.FORMATS_LIB)).items():
+                    chk("multiple_format_hash_file-after-rewrite", f, d, 7, " (rewritten in place, same size and mtime)")
+                r = ctx.run("hash", [path, "-h", "md5"])
+                chk("cli-hash-after-rewrite", "md5", want["md5"] if want["md5"] in r.out else f"<{r.out.strip()[-80:]}>")
     finally:
         sub.rm(os.path.dirname(path))
     return v, stats["evals"], len(stats["distinct"])
@@ -387,7 +404,8 @@ def main(tier, seed):
            "rule": "product lengths {0,1,2, 1MiB-1, 1MiB, 1MiB+1, 2MiB-1, 2MiB, 2MiB+1, 3MiB+17} x contents x format sets (quick: "
                    "singletons, pairs, full set + reversed; thorough: all 127 non-empty subsets of the 7 library formats in "
                    "ascending and descending order) x entry points {hash_file, hash_data, streaming update split at each boundary, "
-                   "multiple_format_hash_file, multiple_format_hash_data, bytes_for_hash_string, ascmhl-debug hash, create, verify}; "
+                   "multiple_format_hash_file, multiple_format_hash_data, bytes_for_hash_string, ascmhl-debug hash, create, verify; the same path "
+                   "hashed again after it was rewritten in place with the same length, inode and mtime}; "
                    "all byte strings of length <=2 over {00,0A,61,FF}; C4 codec driven with a stub hasher over the structured "
                    "512-bit family; distinct = distinct (length, content, entry point, format, set size) combinations compared "
                    "with hashlib/xxhash one-shot digests and the own base-58 codec"}
